@@ -210,7 +210,9 @@ def parse_cbmc(text):
                 res.setdefault("ignored", []).append(m.group("id"))
                 continue
             res["props"].append((m.group("id"), m.group("loc"), m.group("st")))
-            if m.group("st") != "SUCCESS":
+            if m.group("st") in ("UNKNOWN", "ERROR"):
+                res.setdefault("unknown", []).append(m.group("id"))   # beyond a failed unwinding assertion: not decided
+            if m.group("st") == "FAILURE":
                 res["failed"].append((m.group("id"), m.group("loc")))
                 if "unwinding assertion" in m.group("loc") or "recursion unwinding" in m.group("loc"):
                     res["unwind_fail"].append(m.group("id"))
